@@ -110,36 +110,42 @@ def _has_quantifier(t):
 
 
 def solve(constraints, timeout_ms=None, cvc5=True):
-    """Returns ('unsat'|'sat'|'unknown', backend, seconds, model_or_None)."""
+    """Returns ('unsat'|'sat'|'unknown', backend, seconds, model_or_None).
+    Portfolio: z3 with a short budget, then cvc5 on the same SMT-LIB text, then z3 again with the full budget."""
     t0 = time.time()
-    s = z3.Solver()
-    s.set("timeout", timeout_ms or Z3_TIMEOUT_MS)
-    for c in constraints:
-        s.add(c)
-    r = s.check()
-    dt = time.time() - t0
-    if r == z3.unsat:
-        return "unsat", "z3-5.1", dt, None
-    if r == z3.sat:
-        return "sat", "z3-5.1", dt, s.model()
-    if not cvc5:
-        return "unknown", "z3-5.1", dt, None
-    # second back end: cvc5 on the same SMT-LIB text
-    r2 = solve_cvc5(s)
-    dt = time.time() - t0
-    if r2 == "unsat":
-        return "unsat", "cvc5", dt, None
-    if r2 == "sat":
-        # cvc5 says sat but gives us no z3 model: retry z3 with a different seed/tactic for a model
-        s2 = z3.Solver()
-        s2.set("timeout", (timeout_ms or Z3_TIMEOUT_MS))
-        s2.set("random_seed", 7)
+    full = timeout_ms or Z3_TIMEOUT_MS
+
+    def run_z3(ms, seed=None):
+        s = z3.Solver()
+        s.set("timeout", ms)
+        if seed is not None:
+            s.set("random_seed", seed)
         for c in constraints:
-            s2.add(c)
-        if s2.check() == z3.sat:
-            return "sat", "cvc5+z3", time.time() - t0, s2.model()
-        return "sat", "cvc5", time.time() - t0, None
-    return "unknown", "z3-5.1,cvc5", dt, None
+            s.add(c)
+        return s, s.check()
+
+    s, r = run_z3(min(3000, full))
+    if r == z3.unsat:
+        return "unsat", "z3-5.1", time.time() - t0, None
+    if r == z3.sat:
+        return "sat", "z3-5.1", time.time() - t0, s.model()
+    if cvc5:
+        r2 = solve_cvc5(s)
+        if r2 == "unsat":
+            return "unsat", "cvc5", time.time() - t0, None
+        if r2 == "sat":
+            # cvc5 says sat but gives us no z3 model: ask z3 again (other seed) for a model
+            s2, rr = run_z3(full, seed=7)
+            if rr == z3.sat:
+                return "sat", "cvc5+z3", time.time() - t0, s2.model()
+            return "sat", "cvc5", time.time() - t0, None
+    if full > 3000:
+        s3, r3 = run_z3(full * 3 if cvc5 else full, seed=11)
+        if r3 == z3.unsat:
+            return "unsat", "z3-5.1", time.time() - t0, None
+        if r3 == z3.sat:
+            return "sat", "z3-5.1", time.time() - t0, s3.model()
+    return "unknown", "z3-5.1,cvc5" if cvc5 else "z3-5.1", time.time() - t0, None
 
 
 _CVC5 = None
